@@ -250,6 +250,7 @@ func (p *Parser) ParseProgram() (*ast.Program, error) {
 		}
 		p.NextToken()
 	}
+	program.EOF = p.CurrentToken
 	if len(p.errors) > 0 {
 		return program, fmt.Errorf("parsing failed with %d errors: %v",
 			len(p.errors), p.errors[0])
